@@ -57,13 +57,7 @@ fn c01e_lzma2_writer_header() {
 
 // C01-E / C19-C: the flags the two real constructors start with agree: the writer's first chunk always carries what the
 // reader requires of a first chunk (dictionary reset unless a NON-EMPTY preset dictionary is in use on both sides).
-//@ {"name":"c19c_lzma2_preset_dict_flags","props":["C19","C01"],"obligation":"C19-C","timeout":1500,"mem_gb":9,"functions":["enc::lzma2_writer::LZMA2Writer::new","lzma2_reader::LZMA2Reader::new","lz::lz_encoder::LZEncoderData::set_preset_dict"],"bounds":"preset dictionary: None, Some(empty), Some([1,2,3]) (symbolic choice); dict 4096; unwind 10","assumes":[]}
-#[kani::proof]
-#[kani::unwind(10)]
-#[kani::stub(crate::enc::encoder::LZMAEncoder::new, crate::enc::encoder::verif_stubs_enc::verif_cheap_encoder)]
-fn c19c_lzma2_preset_dict_flags() {
-    let kind: u8 = kani::any();
-    kani::assume(kind < 3);
+fn preset_dict_flags(kind: u8) {
     // concrete preset bytes (symbolic ones are hashed into the real match-finder tables: 9 GB OOM)
     let bytes: [u8; 3] = [1, 2, 3];
     let preset: Option<Vec<u8>> = match kind { 0 => None, 1 => Some(Vec::new()), _ => Some(bytes.to_vec()) };
@@ -75,11 +69,28 @@ fn c19c_lzma2_preset_dict_flags() {
     let writer_resets = w.dict_reset_needed;
     let reader_needs = crate::lzma2_reader::verif_need_dict_reset(&r);
     assert!(!reader_needs || writer_resets, "C19-C: reader demands a dictionary reset in the first chunk but the writer will not emit one");
-    kani::cover!(kind == 1, "empty preset dictionary");
-    kani::cover!(kind == 2, "real preset dictionary");
+    kani::cover!(true, "end reached");
     core::mem::forget(w);
     core::mem::forget(r);
 }
+
+//@ {"name":"c19c_lzma2_preset_dict_flags_none","props":["C19","C01"],"obligation":"C19-C","timeout":1500,"mem_gb":9,"functions":["enc::lzma2_writer::LZMA2Writer::new","lzma2_reader::LZMA2Reader::new","lz::lz_encoder::LZEncoderData::set_preset_dict"],"bounds":"no preset dictionary on both sides (concrete: a symbolic choice merges three constructor states - 9 GB OOM); dict 4096; unwind 10","assumes":[],"no_inputs":true}
+#[kani::proof]
+#[kani::unwind(10)]
+#[kani::stub(crate::enc::encoder::LZMAEncoder::new, crate::enc::encoder::verif_stubs_enc::verif_cheap_encoder)]
+fn c19c_lzma2_preset_dict_flags_none() { preset_dict_flags(0); }
+
+//@ {"name":"c19c_lzma2_preset_dict_flags_empty","props":["C19","C01"],"obligation":"C19-C","timeout":1500,"mem_gb":9,"functions":["enc::lzma2_writer::LZMA2Writer::new","lzma2_reader::LZMA2Reader::new","lz::lz_encoder::LZEncoderData::set_preset_dict"],"bounds":"EMPTY preset dictionary (Some(&[])) on both sides (concrete: a symbolic choice merges three constructor states - 9 GB OOM); dict 4096; unwind 10","assumes":[],"no_inputs":true}
+#[kani::proof]
+#[kani::unwind(10)]
+#[kani::stub(crate::enc::encoder::LZMAEncoder::new, crate::enc::encoder::verif_stubs_enc::verif_cheap_encoder)]
+fn c19c_lzma2_preset_dict_flags_empty() { preset_dict_flags(1); }
+
+//@ {"name":"c19c_lzma2_preset_dict_flags_real","props":["C19","C01"],"obligation":"C19-C","timeout":1500,"mem_gb":9,"functions":["enc::lzma2_writer::LZMA2Writer::new","lzma2_reader::LZMA2Reader::new","lz::lz_encoder::LZEncoderData::set_preset_dict"],"bounds":"3-byte preset dictionary on both sides (concrete: a symbolic choice merges three constructor states - 9 GB OOM); dict 4096; unwind 10","assumes":[],"no_inputs":true}
+#[kani::proof]
+#[kani::unwind(10)]
+#[kani::stub(crate::enc::encoder::LZMAEncoder::new, crate::enc::encoder::verif_stubs_enc::verif_cheap_encoder)]
+fn c19c_lzma2_preset_dict_flags_real() { preset_dict_flags(2); }
 
 // C18 (LZMA2 part): chunk size option is raised to the dictionary size for every value.
 //@ {"name":"c18_lzma2_chunk_size_clamp","props":["C18","C19"],"obligation":"C18-A","timeout":900,"mem_gb":9,"functions":["enc::lzma2_writer::LZMA2Writer::new"],"bounds":"chunk_size any non-zero u64; dict 4096","assumes":[]}
